@@ -16,7 +16,7 @@ NObjs(s) == Len(s["state"]) + Len(s["gate"]) + Len(s["povm"]) + Len(s["mprocess"
 
 Init == cfg \in Cfgs /\ set = EmptySet
 Add(desc) == /\ NObjs(set) < MaxObjs
-             /\ Len(set[desc.T]) < 2
+             /\ Len(set[desc.T]) < 3
              /\ set' = [set EXCEPT ![desc.T] = Append(@, desc)]
              /\ cfg' = desc
 Next == \E desc \in SetCfgs : Add(desc)
